@@ -31,7 +31,9 @@ def line_alphabet(LIB):
             # own entry sharing its line with another (foreign) snoopy instance
             LIB + b' /opt/other/libsnoopy.so',
             # the path pasted twice without a separator: starts with the entry, but is a different (foreign) library path
-            LIB + LIB, LIB + LIB + b' # c']
+            LIB + LIB, LIB + LIB + b' # c',
+            # one line that alone makes the file larger than 10 KiB (beyond any "small file" helper)
+            b'# ' + b'y' * 11000]
 
 
 def files(LIB, maxlines, extra=True):
